@@ -18,7 +18,12 @@ import (
 )
 
 // slots: what "the same format" means
-var c14Slots = []string{"csv", "html:A", "html:B", "json", "markdown", "text:utf8-heavy", "text:ascii-simple", "text:none", "text:utf8-double"}
+var c14Slots = []string{"csv", "html:A", "html:B", "json", "markdown", "text:utf8-heavy", "text:ascii-simple", "text:none", "text:utf8-double",
+	// style strings that are no registered name but a proper prefix of several: whatever they select (nothing, today), they select it every time
+	"style:utf8-l", "style:utf8", "style:u", "style:texttable.utf8-"}
+
+// the slots every sequence is enumerated over (the style slots get their own family)
+const c14MainSlots = 9
 
 type C14Render struct {
 	Slot  int `json:"slot"`  // -1: not a render but a cell appended to row AddRow of the table (see Add)
@@ -98,9 +103,9 @@ func init() {
 	register(&Prop{
 		ID:       "C14",
 		Imports:  "From Tab Require Import Run.Glue Run.C14Run.",
-		CaseType: "(view * list N * list N * list (nat * res (list N)))",
-		CaseFn:   "C14_case",
-		ModelFn:  "C14_model",
+		CaseType: "(view * list N * list N * list (res (list N)) * list (nat * nat))",
+		CaseFn:   "C14_case2",
+		ModelFn:  "C14_model2",
 		Rule: "a table (fixed shapes + random; optionally with user properties on the table, every column incl. column 0, rows and cells, and a pre-existing error) is rendered by a sequence of renders over 9 slots " +
 			"(csv, html with two different Id/Class/Caption/row-class settings from ONE reused HTMLTable, json, markdown, text in 4 decorations), each through the slot's reused wrapper, a fresh Wrap or a package-level/auto entry point; " +
 			"all sequences of length <= 2 over the slots on two tables exhaustively, random sequences of length <= 12 otherwise; observed: every output, and a serialised snapshot (counts, every row/cell text, emptiness, location, size, CellAt, user properties of every owner, Column(n) nil-ness for -1..n+1, error list identity) before and after; " +
@@ -127,9 +132,9 @@ func init() {
 			}
 			var out []json.RawMessage
 			for ti, ts := range fixed {
-				for a := 0; a < len(c14Slots); a++ {
+				for a := 0; a < c14MainSlots; a++ {
 					out = append(out, mustJSON(C14Spec{Table: ts, Props: ti == 0, Renders: []C14Render{{Slot: a}, {Slot: a}}}))
-					for b := 0; b < len(c14Slots); b++ {
+					for b := 0; b < c14MainSlots; b++ {
 						out = append(out, mustJSON(C14Spec{Table: ts, Props: ti == 1, Misuse: b%2 == 0,
 							Renders: []C14Render{{Slot: a, Fresh: (a + b) % 3}, {Slot: b, Fresh: b % 3}, {Slot: a, Fresh: (a + 1) % 3}, {Slot: b}}}))
 					}
@@ -137,9 +142,9 @@ func init() {
 			}
 			// a cell appended to an attached row between renders; a failed render of the reused wrapper
 			for ti, ts := range fixed {
-				for a := 0; a < len(c14Slots); a++ {
+				for a := 0; a < c14MainSlots; a++ {
 					add := Str("late")
-					out = append(out, mustJSON(C14Spec{Table: ts, Props: ti == 1, Renders: []C14Render{{Slot: a}, {Slot: -1, AddRow: 2 * ti, Add: &add}, {Slot: a}, {Slot: (a + 4) % len(c14Slots), Fresh: 2}, {Slot: a}}}))
+					out = append(out, mustJSON(C14Spec{Table: ts, Props: ti == 1, Renders: []C14Render{{Slot: a}, {Slot: -1, AddRow: 2 * ti, Add: &add}, {Slot: a}, {Slot: (a + 4) % c14MainSlots, Fresh: 2}, {Slot: a}}}))
 					out = append(out, mustJSON(C14Spec{Table: ts, Renders: []C14Render{{Slot: a}, {Slot: a, Fresh: 3}, {Slot: a}, {Slot: a, Fresh: 3}, {Slot: a, Fresh: 1}, {Slot: a}}}))
 				}
 			}
@@ -147,8 +152,32 @@ func init() {
 			{
 				h := []ItemSpec{Str("k"), Str("v")}
 				ts := TableSpec{Header: &h, Rows: []RowSpec{{Cells: []ItemSpec{Str("a"), {K: "chan"}}}, {Cells: []ItemSpec{Str("b"), Str("c")}}}}
-				for a := 0; a < len(c14Slots); a++ {
+				for a := 0; a < c14MainSlots; a++ {
 					out = append(out, mustJSON(C14Spec{Table: ts, Renders: []C14Render{{Slot: 3}, {Slot: a}, {Slot: 3, Fresh: 1}, {Slot: a, Fresh: 2}, {Slot: 3, Fresh: 2}}}))
+				}
+			}
+			// runs of adjacent separators with rows after them (and at either end): every format, with a JSON / markdown / text render in between
+			{
+				sep := RowSpec{Sep: true}
+				for ti, ts := range []TableSpec{
+					{Header: hdr("k", "v"), Rows: []RowSpec{row("a", "1"), row("b", "2"), sep, sep, row("c", "3"), row("d", "4")}},
+					{Header: hdr("k", "v"), Rows: []RowSpec{sep, sep, row("a", "1"), sep, sep, sep, row("b", "2"), row("c", "3"), sep, sep}},
+				} {
+					for a := 0; a < c14MainSlots; a++ {
+						for _, mid := range []int{3, 4, 5} {
+							out = append(out, mustJSON(C14Spec{Table: ts, Props: ti == 1, Renders: []C14Render{{Slot: a}, {Slot: mid, Fresh: a % 3}, {Slot: a, Fresh: 1}, {Slot: mid}, {Slot: a, Fresh: 2}}}))
+						}
+					}
+				}
+			}
+			// ambiguous abbreviations of decoration names, asked for again and again through every route
+			for ti, ts := range fixed {
+				for a := c14MainSlots; a < len(c14Slots); a++ {
+					var rs []C14Render
+					for k := 0; k < 12; k++ {
+						rs = append(rs, C14Render{Slot: a, Fresh: (k + ti) % 3})
+					}
+					out = append(out, mustJSON(C14Spec{Table: ts, Renders: rs}))
 				}
 			}
 			n := 60
@@ -235,7 +264,18 @@ func init() {
 					h.SetRowClassGenerator(func(n int, _ interface{}) htmltemplate.HTMLAttr { return htmltemplate.HTMLAttr(fmt.Sprintf("r%d", n)) }, nil)
 				}
 			}
-			var renders []string
+			var renders, distinct []string // (slot, index into distinct) per render; the distinct outcomes
+			seenOut := map[string]int{}
+			addRender := func(id int, o Outcome) {
+				key := o.Kind + "\x00" + string(o.Out)
+				k, ok := seenOut[key]
+				if !ok {
+					k = len(distinct)
+					seenOut[key] = k
+					distinct = append(distinct, o.Coq())
+				}
+				renders = append(renders, cqPair(cqNat(id), cqNat(k)))
+			}
 			// the reference for each (slot, epoch): "the first time" = the same spec,
 			// with the cells appended so far, built afresh and rendered once
 			// through a fresh wrapper
@@ -285,13 +325,15 @@ func init() {
 						return tjson.Wrap(ft).Render()
 					case slot == "markdown":
 						return markdown.Wrap(ft).Render()
+					case strings.HasPrefix(slot, "style:"):
+						return auto.Render(ft, slot[6:])
 					}
 					tt := texttable.Wrap(ft)
 					tt.SetDecorationNamed(slot[5:])
 					return tt.Render()
 				})
 				first[id] = ref
-				renders = append(renders, cqPair(cqNat(id), ref.Coq()))
+				addRender(id, ref)
 			}
 			type shown struct {
 				Slot string
@@ -340,6 +382,8 @@ func init() {
 							wmd = markdown.Wrap(t)
 						}
 						w = wmd
+					case strings.HasPrefix(slot, "style:"):
+						w = auto.Wrap(t, slot[6:])
 					default:
 						if wtext == nil {
 							wtext = texttable.Wrap(t)
@@ -397,6 +441,16 @@ func init() {
 							return markdown.Wrap(t).Render()
 						}
 						return markdown.Render(t)
+					case strings.HasPrefix(slot, "style:"):
+						switch rd.Fresh {
+						case 0:
+							return auto.Wrap(t, slot[6:]).Render()
+						case 1:
+							tt := texttable.Wrap(t)
+							tt.SetDecorationNamed(strings.TrimPrefix(slot[6:], "texttable."))
+							return tt.Render()
+						}
+						return auto.Render(t, slot[6:])
 					default:
 						d := slot[5:]
 						switch rd.Fresh {
@@ -420,7 +474,7 @@ func init() {
 				} else if (f.Kind != o.Kind || string(f.Out) != string(o.Out)) && sig == "" {
 					sig = "output-changed:" + strings.SplitN(slot, ":", 2)[0]
 				}
-				renders = append(renders, cqPair(cqNat(id), o.Coq()))
+				addRender(id, o)
 				if len(outs) < 4 {
 					outs = append(outs, shown{slot, o})
 				}
@@ -448,7 +502,7 @@ func init() {
 				tags = append(tags, "pre-existing-error")
 			}
 			return CaseOut{
-				Coq:        fmt.Sprintf("(%s, %s, %s, %s)", view.Coq(true), cqStr(before), cqStr(after), cqList(renders)),
+				Coq:        fmt.Sprintf("(%s, %s, %s, %s, %s)", view.Coq(true), cqStr(before), cqStr(after), cqList(distinct), cqList(renders)),
 				Desc:       desc,
 				Size:       sp.Table.Size()*20 + len(sp.Renders),
 				Tags:       tags,
